@@ -6,9 +6,12 @@
      watcher_replay          the watcher's pass replayed after a kill at any point of its insert phase, node
                              consistent and outside the recorded class (CrashReplay.replay_ok): EXACTLY the tables
                              of the uninterrupted pass
-     gatekeeper_replay       the purge replayed after a kill before or after its commit (memory reloaded from the
-                             table): exactly the tables of the uninterrupted purge
+     gatekeeper_replay_done  the purge replayed after its commit (memory reloaded from the purged table): no statement
      gw_replay               the two composed: kill anywhere in the gatekeeper + watcher-insert part of a block
+     watcher_replay_completed the watcher's pass delivered again after it COMPLETED (an earlier block of the
+                             interrupted poll: the last known block is written after all blocks): nothing changes
+     replay_block_upto_responder  after the replayed gatekeeper + watcher the responder starts from the same tables,
+                             index, heights, reorged set
      register / add_appointment: see section 6 (crash states, resubmission)
    REFUTED  replay_block_refuted: consistent node, kill between sendrawtransaction and the tracker INSERT, the
             penalty confirmed while down: the replay is answered -27 and no tracker is ever created (the recorded
@@ -656,4 +659,96 @@ Proof.
   - rewrite V4, W4, B2, G2. reflexivity.
   - rewrite V5, W5, B4, G4. rewrite Hre. reflexivity.
   - rewrite V1, W1, B6, G6. reflexivity.
+Qed.
+(* 8. the watcher's pass replayed after it COMPLETED (an earlier block of the interrupted poll, delivered again) *)
+Lemma exec_w_delete d l :
+  d_users (execs d (w_delete l)) = d_users d /\
+  d_apps (execs d (w_delete l)) = filter (fun a => negb (mem_uuid (app_uuid a) l)) (d_apps d) /\
+  d_trks (execs d (w_delete l)) = filter (fun k => negb (mem_uuid (trk_uuid k) l)) (d_trks d).
+Proof.
+  destruct l as [|x [|y l]]; cbn [w_delete execs fold_left].
+  - repeat split; symmetry; apply filter_true; intros; reflexivity.
+  - repeat split.
+  - rewrite exec_txn1 by exact I. repeat split.
+Qed.
+
+Lemma find_trk_filter_keep (p : trk -> bool) l u :
+  find_trk l u <> None -> (forall k, In k l -> trk_uuid k = u -> p k = true) -> find_trk (filter p l) u <> None.
+Proof.
+  unfold find_trk. induction l as [|k l IH]; cbn [find filter]; [auto|]. intros H Hp.
+  destruct (uuid_eqb (trk_uuid k) u) eqn:E.
+  - apply uuid_eqb_eq in E. rewrite (Hp k (or_introl eq_refl) E). cbn [find]. rewrite <- E, uuid_eqb_refl. discriminate.
+  - destruct (p k); cbn [find]; [rewrite E|]; apply IH; [exact H|intros k' Hk'; apply Hp; right; exact Hk'| exact H |intros k' Hk'; apply Hp; right; exact Hk'].
+Qed.
+
+Theorem watcher_replay_completed sc1 sc2 tA tB hash txs h tA' tB' :
+  Inv tA -> memo_coherent sc1 tA -> memo_coherent sc2 tB ->
+  r_index tB = r_index tA -> car_height tB = car_height tA ->
+  db_of tB = db_of tA' ->
+  replay_ok tA (db_of tB) txs sc1 sc2 ->
+  w_block_connected sc1 tA (cache_block hash txs) h = Ok tt tA' ->
+  w_block_connected sc2 tB (cache_block hash txs) h = Ok tt tB' ->
+  db_of tB' = db_of tA'.
+Proof.
+  intros HI HcA HcB Hi Hh Hdb Hok HA HB.
+  pose proof (w_pure sc1 tA hash txs h tA' HcA HA) as DA.
+  rewrite (w_pure sc2 tB hash txs h tB' HcB HB), <- Hdb.
+  set (INS := w_inserts sc1 tA txs) in *. set (INV := w_invalid sc1 tA txs) in *.
+  rewrite execs_app in DA. set (d1 := execs (db_of tA) INS) in *.
+  destruct (execs_ins_keeps INS (ins_only_w sc1 tA txs) (db_of tA)) as [Ku [Ka _]]. fold d1 in Ku, Ka.
+  destruct (exec_w_delete d1 INV) as [Du [Da Dt]]. rewrite <- DA, <- Hdb in Du, Da, Dt.
+  change (d_apps (db_of tB)) with (db_apps tB) in Da. change (d_trks (db_of tB)) with (db_trks tB) in Dt.
+  rewrite Ka in Da. change (d_apps (db_of tA)) with (db_apps tA) in Da.
+  (* every statement INS already issued is a fixpoint of d1 *)
+  pose proof (ins_block_done INS (ins_only_w sc1 tA txs) (db_of tA) [] (Forall_nil _) (Forall_nil _)) as Hfix. cbn [List.app] in Hfix. fold d1 in Hfix.
+  (* facts about a breached row of the replay *)
+  assert (Hrow : forall x, In x (breached_rows tB txs) ->
+            row_invalid sc2 tB x = false /\ Forall (fixpoint_of (db_of tB)) (row_stmts sc2 tB x)).
+  { intros x Hx. destruct (in_breached _ _ _ Hx) as [Hd [a0 [Ha0 [Hl0 Hu0]]]].
+    unfold row_invalid, row_stmts.
+    destruct (find_app (db_apps tB) (snd x)) as [a|] eqn:Ef; [|split; [reflexivity|constructor]].
+    apply find_app_Some in Ef. destruct Ef as [Hin Hu].
+    assert (Hl : a_loc a = fst x) by (unfold app_uuid in Hu, Hu0; rewrite <- Hu0 in Hu; inversion Hu; congruence).
+    rewrite Da in Hin. apply filter_In in Hin. destruct Hin as [HinA Hnm]. rewrite Hu in Hnm.
+    assert (HfA : find_app (db_apps tA) (snd x) = Some a) by (rewrite <- Hu; apply find_app_unique; [exact (inv_apps_nodup tA HI)|exact HinA]).
+    assert (HxA : In x (breached_rows tA txs)).
+    { unfold breached_rows. apply in_flat_map. exists (fst x). split.
+      - apply filter_In. split; [exact Hd|]. apply existsb_exists. exists a. split; [exact HinA|apply N.eqb_eq; exact Hl].
+      - destruct x as [dd uu]. cbn [fst snd] in *. apply in_map. unfold uuids_of. apply in_map_iff. exists a. split; [exact Hu|].
+        apply filter_In. split; [exact HinA|apply N.eqb_eq; exact Hl]. }
+    (* not invalid in the first run *)
+    assert (HniA : row_invalid sc1 tA x = false).
+    { destruct (row_invalid sc1 tA x) eqn:E; [|reflexivity]. exfalso.
+      assert (Hm : mem_uuid (snd x) INV = true).
+      { apply mem_uuid_In. unfold INV, w_invalid. apply in_map. apply filter_In. split; assumption. }
+      rewrite Hm in Hnm. discriminate. }
+    unfold row_invalid in HniA. rewrite HfA in HniA.
+    destruct (decrypt (a_blob a) (fst x)) as [p|] eqn:Ed; [|discriminate].
+    assert (Hissued : forall k, In (SInsTrk k) INS -> trk_uuid k = snd x -> fixpoint_of (db_of tB) (SInsTrk k)).
+    { intros k Hk Hku. apply ins_fix_iff. left. change (d_trks (db_of tB)) with (db_trks tB). rewrite Dt, Hku.
+      apply find_trk_filter_keep.
+      - unfold INS in Hk. rewrite Forall_forall in Hfix. specialize (Hfix _ Hk). apply ins_fix_iff in Hfix. rewrite Hku in Hfix.
+        destruct Hfix as [Hf|Hf]; [exact Hf|]. rewrite Ka in Hf. change (d_apps (db_of tA)) with (db_apps tA) in Hf. congruence.
+      - intros k' _ Hk'. rewrite Hk', Hnm. reflexivity. }
+    unfold pure_status in *. rewrite Hi. destruct (ti_get (r_index tA) p) as [bh|] eqn:Ei.
+    - destruct (ti_get_height (r_index tA) bh) as [hh|] eqn:Eh; [|split; [reflexivity|constructor]].
+      split; [reflexivity|]. cbn [tr_add_tracker stmts_of flat_map List.app]. repeat constructor.
+      apply Hissued; [|destruct (snd x); reflexivity].
+      unfold INS, w_inserts. apply in_flat_map. exists x. split; [exact HxA|]. unfold row_stmts, pure_status. rewrite HfA, Ed, Ei, Eh. left. reflexivity.
+    - rewrite (node_status_fr sc2 tA tB p Hh).
+      assert (HinB : In a (d_apps (db_of tB))).
+      { change (d_apps (db_of tB)) with (db_apps tB). rewrite Da. apply filter_In. split; [exact HinA|]. rewrite Hu. exact Hnm. }
+      rewrite <- Hl in Ed, Hd. destruct (Hok a p HinB Hd Ed Ei) as [E|[_ [Hres _]]].
+      + rewrite E. split; [exact HniA|].
+        destruct (node_status sc1 tA p) eqn:Es; cbn [tr_add_tracker stmts_of flat_map List.app]; repeat constructor;
+          (apply Hissued; [|destruct (snd x); reflexivity]);
+          unfold INS, w_inserts; apply in_flat_map; exists x; (split; [exact HxA|]); unfold row_stmts, pure_status;
+          rewrite Hl in Ed; rewrite HfA, Ed, Ei, Es; left; reflexivity.
+      + rewrite Hres. split; [reflexivity|constructor]. }
+  assert (Hinv : w_invalid sc2 tB txs = []).
+  { unfold w_invalid. rewrite filter_false; [reflexivity|]. intros x Hx. apply (Hrow x Hx). }
+  rewrite Hinv. cbn [w_delete]. rewrite app_nil_r.
+  apply ins_block_fix; [apply ins_only_w|].
+  unfold w_inserts. apply Forall_forall. intros s Hs. apply in_flat_map in Hs. destruct Hs as [x [Hx Hs]].
+  destruct (Hrow x Hx) as [_ Hf]. rewrite Forall_forall in Hf. apply Hf. exact Hs.
 Qed.
